@@ -121,7 +121,7 @@ pub fn replay(input: &str, output: &str) {
     let mut sets: Vec<(String, Parameters)> = robots::named_robots().into_iter().map(|(n, p)| (n.to_string(), p)).collect();
     let n_rand = if thorough() { 3000 } else { 300 };
     for k in 0..n_rand {
-        let mut p = robots::geometry(robots::GEOMETRY_CLASSES[k % 7], &mut r);
+        let mut p = robots::geometry(robots::GEOMETRY_CLASSES[k % robots::GEOMETRY_CLASSES.len()], &mut r);
         p = robots::convention(p, r.gen_range(0..64), ["zero", "quarter", "random"][k % 3], &mut r);
         if k % 3 == 0 { p.b = [0.0, 1.0, -1.0][(k / 3) % 3]; p.a2 = 0.0; }       // integral-valued lengths
         if k % 5 == 0 { p.c1 = 1.0; p.c4 = 0.0; }
